@@ -183,6 +183,7 @@ pub(crate) fn profile_for(id: &str) -> Profile {
             p
         }
         "C20" => p.w(&[(K::Register, 10), (K::RegPiece, 6), (K::Join, 20), (K::JoinMulti, 4), (K::Oper, 8), (K::ModeQuery, 6), (K::List, 5), (K::Motd, 5), (K::ModeUser, 4), (K::Privmsg, 8), (K::Topic, 3), (K::TopicQuery, 3), (K::Whois, 4), (K::Wallops, 2), (K::Lusers, 3)]),
+        "C18" => p.w(&[(K::Join, 16), (K::Part, 4), (K::ModeChan, 6), (K::Nick, 3), (K::Privmsg, 5), (K::Topic, 2), (K::Away, 2), (K::ModeUser, 2)]),
         "C12" => p.w(&[(K::Join, 14), (K::Part, 5), (K::Privmsg, 6), (K::Topic, 3), (K::Nick, 3), (K::ModeUser, 3), (K::Away, 2), (K::Names, 2), (K::Who, 2)]),
         "C06" => p.w(&[(K::Quit, 6), (K::Eof, 6), (K::Reset, 6), (K::EofMidLine, 3), (K::Kill, 4), (K::HalfOpen, 2), (K::Oper, 4), (K::Register, 8), (K::Whowas, 5), (K::Invite, 5), (K::ModeUser, 5), (K::Wallops, 3), (K::Lusers, 4), (K::Ison, 4), (K::ModeQuery, 5), (K::List, 3)]),
         _ => p,
